@@ -18,7 +18,8 @@ class C19(Prop):
   quick_examples = 500
   thorough_examples = 6000
   rule = ("Hypothesis-generated histories on a decorated chart hosted on an instrumented "
-          "HsmWithQueues: handlers post_fifo/post_lifo/defer/recall/scribble from their clauses; "
+          "HsmWithQueues: handlers post_fifo/post_lifo/defer/recall/scribble and query the chart (is_in, "
+          "current_state) from their clauses; "
           "operations post/defer/recall/next_rtc/complete_circuit (next_rtc only counted as a step "
           "when the model queue is non-empty); one history in eight is long (255-350 queued events) "
           "so the 500-line ring wraps. Oracle built from the handlers' OWN invocation stream: each "
